@@ -7,7 +7,7 @@ git -C /repo worktree add -q --detach $WT HEAD || exit 3
 cd /verif/seeded
 for d in ${@:-*}; do
   [ -f "$d/patch.diff" ] || continue
-  PROP=${d%%-*}
+  PROP=${d%%-*}; [ -f /verif/seeded/$d/check_with ] && PROP=$(cat /verif/seeded/$d/check_with)
   cd $WT && git reset -q --hard
   if git apply /verif/seeded/$d/patch.diff 2>/dev/null || git apply --3way /verif/seeded/$d/patch.diff 2>/dev/null; then
     git reset -q
